@@ -35,6 +35,8 @@ class FS:
         self.dirs = {"/d"}
         self.n = 0
         self.kappa = kappa
+        self.fault = fault
+        self.faulted = None
         self.dead = False
         self.log = []
 
@@ -47,6 +49,9 @@ class FS:
         if self.kappa is not None and bool(self.kappa == i):
             self.dead = True
             raise Kill()
+        if self.fault is not None and self.faulted is None and bool(self.fault == i):
+            self.faulted = name
+            raise OSError(28, "No space left on device (injected)", name)
 
 
 def make_env(fs):
@@ -88,8 +93,9 @@ def make_env(fs):
             self.closed = False
 
         def write(self, text):
+            # buffered, like Python's text / gzip layers: small outputs reach the file system at close()
             fs.op(f"write {self.path}")
-            fs.files[self.path] = fs.files[self.path] + [text]
+            self.buf = getattr(self, "buf", []) + [text]
 
         def writelines(self, lines):
             for ln in [lines] if isinstance(lines, str) else lines:
@@ -97,8 +103,9 @@ def make_env(fs):
 
         def close(self):
             if not self.closed:
-                fs.op(f"close {self.path}")
-                self.closed = True
+                self.closed = True  # a second close() is a no-op even if the first one failed, as for real file objects
+                fs.op(f"close {self.path}")  # the flush: an injected fault here loses the buffered data
+                fs.files[self.path] = fs.files[self.path] + getattr(self, "buf", [])
 
         def __enter__(self):
             return self
@@ -280,6 +287,59 @@ def mk_kill(site, preexists, _replay=None):
     return {"status": "holds", "paths": stats["paths"], "queries": stats["queries"], "detail": f"{stats['paths']} crash points over {nops} file-system operations", "solver_s": round(time.time() - t0, 2)}
 
 
+def mk_fault(site, preexists, _replay=None):
+    """one file-system operation (symbolic index) fails with OSError (disk full, I/O error): whatever the code then does,
+    the destination holds its previous content (or is absent) or exactly the complete new content"""
+    t0 = time.time()
+    fv = z3.Int("phi")
+
+    def run(phi):
+        fs = FS(None, fault=phi)
+        if preexists:
+            fs.files[DEST] = ["old"]
+        err = None
+        with _Patched(fs):
+            try:
+                _writer(site, None)()
+            except OSError as e:
+                err = e
+        return fs, err
+
+    def verdict(fs):
+        content = fs.files.get(DEST)
+        old = ["old"] if preexists else None
+        return content == old or "".join(content or ["\0"]) == _expected(site), content
+
+    if _replay is not None:
+        k = int(_replay["phi"])
+
+        class K:
+            def __eq__(self, i):
+                return i == k
+
+        fs, err = run(K())
+        ok, content = verdict(fs)
+        return {"status": "not_reproduced" if ok else "reproduced", "detail": f"OSError injected at op {k} ({fs.faulted}): destination = {content!r}; ops = {fs.log}"}
+
+    phi = psx.SReal(z3.ToReal(fv))
+    paths, stats = psx.explore(lambda: run(phi), [fv >= 0, fv <= 40])
+    if not W.reach("end"):
+        return {"status": "cex" if any(p.exc is None and p.result[0].faulted for p in paths) else "inconclusive", "cex": {"twin": f"{len(paths)} fault points"}}
+    for p in paths:
+        if p.exc is not None:
+            return {"status": "cex", "cex": {"phi": -1, "raised": repr(p.exc)}}
+        fs, err = p.result
+        ok, content = verdict(fs)
+        if not ok:
+            s = z3.Solver()
+            s.add(*p.assertions)
+            s.check()
+            return {"status": "cex", "cex": {"phi": s.model().eval(fv, model_completion=True).as_long(), "failed_op": fs.faulted, "destination": repr(content), "ops": fs.log}}
+        if fs.faulted is None and ("".join(content or []) != _expected(site) or _temp_left(fs)):
+            return {"status": "cex", "cex": {"phi": 99, "destination": repr(content)}}
+    return {"status": "holds", "paths": stats["paths"], "queries": stats["queries"], "detail": f"{stats['paths']} fault points", "solver_s": round(time.time() - t0, 2)}
+
+
 def mk_format_failure(site, preexists, _replay=None):
     """formatting raises at a symbolic chunk index: destination untouched, nothing temporary left"""
     t0 = time.time()
@@ -374,6 +434,7 @@ ASSUMPTIONS = [
     "file system = in-memory model behind Path / mkdtemp / open_ / shutil.rmtree / os.unlink as used by cogent3.util.io; each operation is atomic; rename/replace atomically overwrite (POSIX)",
     "a kill stops the process before the chosen operation; no finally / __exit__ code has any effect afterwards",
     "formatting failure = the formatter raises ValueError while producing a chunk",
+    "I/O fault = one operation raises OSError; file data is buffered and reaches the file system when close() succeeds (a failing close loses it); cleanup of temporary files after an I/O fault is NOT required (the unchanged code leaves the temp dir when close fails)",
 ]
 OUTSIDE = ["real kernel / file-system semantics, power loss, fsync ordering", "gz / bz2 stream buffering, zip archives (_close_rename_zip)", "resume of an interrupted apply_to (data stores: C13 territory)"]
 TRUSTED = ["the file-system model in props/c19.py", "vlib/psx.py"]
@@ -385,10 +446,13 @@ def obligations(tier):
         for pre in (True, False):
             obs.append(Ob(f"kill/{site}/pre{int(pre)}", __name__, "mk_kill", {"site": site, "preexists": pre}, kind="direct", timeout=600, group="kill"))
             obs.append(Ob(f"format_failure/{site}/pre{int(pre)}", __name__, "mk_format_failure", {"site": site, "preexists": pre}, kind="direct", timeout=600, group="failure"))
+            obs.append(Ob(f"io_fault/{site}/pre{int(pre)}", __name__, "mk_fault", {"site": site, "preexists": pre}, kind="direct", timeout=600, group="fault"))
     return obs
 
 
 def classify(name, args, cex, rep):
+    if name.startswith("io_fault/"):
+        return "atomic_write:partial-output-committed-after-io-fault"
     if name.startswith("kill/"):
         return "atomic_write:destination-absent-between-unlink-and-rename"
     if name.startswith("format_failure/save_to_filename"):
